@@ -1,13 +1,38 @@
 /-
   Sipsp.Proofs.AuditFixA — three gaps found by a reviewer in the exported theorems, closed.
 
-  (A) C03: every definitive NON-OK verdict of ParseSIPMsg is stable under appended bytes without any side
-      condition on the object (`parseSIPMsg_stable_err`); the exemption `bodyToEnd` is needed for the verdict OK
-      only (`parseSIPMsg_stable_all`, `parseSIPMsg_stable_all_init`).
-  (B) C04: the model-only loop guards (`.lbug` exits, the `(0, 0, false)` exit of `viaBrLoop`) are unreachable.
-  (C) C06: the link between `parseSIPMsg` and the body table of `msgBody`.
+  (A) C03. `parseSIPMsg_stable_err`: every definitive NON-OK verdict of ParseSIPMsg (first-line errors, header errors,
+      "empty", NoCLen, the state error) is stable under appended bytes with NO side condition on the returned object;
+      `parseSIPMsg_stable_all` / `parseSIPMsg_stable_all_init`: the exemption `bodyToEnd` has to be excluded for the
+      verdict OK only (`hx : e = .ok → ¬ bodyToEnd flags m'`). Example: a BadChar first line, for every continuation.
+  (B) C04 (termination): the six model-only loop guards never fire.
+      * `viaBrLoop` (GetViaBrSig), EVERY input: `afa_viaBr_guard` (the guard holds whenever it is evaluated),
+        `viaBrLoop_unguarded` (the loop satisfies the Go recursion without guard), `viaBrLoop_exit_irrelevant`,
+        `getViaBrSig_exit_irrelevant` (the result is the same whatever the else-exit returns).
+      * verdict `lbug` never returned, NO hypothesis: `parseTokenParam_ne_lbug`, `parseCallIDVal_ne_lbug`,
+        `parseUIntVal_ne_lbug`, `parseCLenVal_ne_lbug`, `parseCSeqVal_ne_lbug`, `parseNameAddrPVal_ne_lbug`,
+        `parseOnePAI_ne_lbug`, `parseAllContactValues_ne_lbug`, `parseAllPAIValues_ne_lbug` (the guards of `contactsLoop` /
+        `paisLoop`: `afa_na_guard`), `parseHdrLine_ne_lbug`, `parseFLine_ne_lbug`.
+      * under the legitimacy hypotheses of the safety theorems: `parseHeaders_ne_lbug` (`hlsOK`, `hbOK`, `hlsPend`),
+        `parseSIPMsg_ne_lbug` (`msgOK2`), `parseSIPMsg_schedule_ne_lbug` (every chunk schedule; `msgOK2`, `MsgSafe`),
+        the `_init` forms (every Init object qualifies) and the `_reset` forms (Reset after any history),
+        `parseAllURIParams_ne_lbug` (`plClean`), `parseAllURIHdrs_ne_lbug` (`hlClean`) for EVERY option word
+        (`afa_pl_guard`, `afa_hl_guard`), `afa_lists_qualify` (new and Reset lists).
+      * tests showing the hypotheses are not redundant (outside the domain the model-only exit IS taken).
+  (C) C06. `parseSIPMsg_eq_msgBody` (the link: first line OK at `o1`, header block OK at `h` ⇒ ParseSIPMsg is
+      `msgBody` entered at `h`), `parseSIPMsg_ok_path` (converse for an OK verdict), `parseSIPMsg_clen_framing`
+      (OK iff `h + n ≤ len`, offset `h + n`, body `[h, h+n)`, else MoreBytes at `h`), `parseSIPMsg_ok_clen`
+      (the property's words, from the returned object alone).
+  NOT proved here: chunk schedules for the two URI lists (only one call; the result is clean again by the existing
+  `parseAllURIParams_post` / `parseAllURIHdrs_post` when the end-of-input option is off); (C) is for an object in state
+  `init` (new / Init / Reset), not for a call resumed in the middle of the header block.
 -/
 import Sipsp.Proofs.MsgL1
+import Sipsp.Proofs.MsgL2
+import Sipsp.Proofs.TokParamEnd
+import Sipsp.Proofs.IP4
+import Sipsp.Proofs.SafeMsg
+import Sipsp.Proofs.SigCompose
 
 namespace Sipsp
 
@@ -101,5 +126,1198 @@ theorem parseSIPMsg_stable_all_init (b s : Buf) (o : Nat) (ho : o ≤ b.size) (m
     parseSIPMsg (b ++ s) o (m0.init len (hdrs.map fun _ => Array.replicate kh {})
       (cts.map fun _ => Array.replicate kc {})) flags = (o', e, m') :=
   parseSIPMsg_stable_all b s o _ flags (msgOK_init b o ho m0 len kh kc hdrs cts) hfit hnf hr he hx
+
+/-! ## (C) C06: ParseSIPMsg reaches the body section exactly through `msgBody` -/
+
+/-- the object with which `case SIPMsgBody:` is entered after the first line (`fl`) and the header block
+    (`hl`, values `hv`) were parsed in this call, started at `o` -/
+def afaBodyEntry (m : PSIPMsg) (o : Nat) (fl : PFLine) (hl : HdrLst) (hv : PHdrVals) : PSIPMsg :=
+  { m with offs := o, fl := fl, hl := hl, pv := hv, state := .body }
+
+theorem afaBodyEntry_pv (m : PSIPMsg) (o : Nat) (fl : PFLine) (hl : HdrLst) (hv : PHdrVals) :
+    (afaBodyEntry m o fl hl hv).pv = hv := rfl
+
+/-- ParseHeaders called with a values object returns a values object (never nil) -/
+theorem afa_parseHeaders_some (b : Buf) (o : Nat) (hl : HdrLst) (pv : PHdrVals) {h : Nat} {e : Err} {hl' : HdrLst}
+    {hb : Option PHdrVals} (hh : parseHeaders b o hl (some pv) = (h, e, hl', hb)) : ∃ hv, hb = some hv := by
+  have := parseHeaders_isSome b o hl pv
+  rw [hh] at this
+  cases hb with
+  | none => cases this
+  | some hv => exact ⟨hv, rfl⟩
+
+/-- **the link**: on a new / Init / Reset object (state `init`), if ParseFLine says OK at `o1` and ParseHeaders
+    says OK at `h`, then ParseSIPMsg IS the body section `msgBody` entered at `h` with the parsed parts. -/
+theorem parseSIPMsg_eq_msgBody (b : Buf) (o o1 h : Nat) (m : PSIPMsg) (flags : Nat) (fl : PFLine) (hl : HdrLst)
+    (hv : PHdrVals) (hst : m.state = .init) (hf : parseFLine b o m.fl = (o1, .ok, fl))
+    (hh : parseHeaders b o1 m.hl (some m.pv) = (h, .ok, hl, some hv)) :
+    parseSIPMsg b o m flags = msgBody b h (afaBodyEntry m o fl hl hv) flags := by
+  unfold parseSIPMsg; rw [hst]; simp only
+  unfold msgFLine; simp only [hf]
+  unfold msgHeaders; simp only [hh]
+  rfl
+
+theorem afa_msgErr_ne_ok (m : PSIPMsg) (o : Nat) (e : Err) (flags : Nat) (he : e ≠ .ok) :
+    (msgErr m o e flags).2.1 ≠ .ok := by
+  unfold msgErr
+  split
+  · exact he
+  · split
+    · intro hh; cases hh
+    · exact he
+
+/-- conversely, an OK verdict of ParseSIPMsg on a state-`init` object went through exactly this path -/
+theorem parseSIPMsg_ok_path (b : Buf) (o : Nat) (m : PSIPMsg) (flags : Nat) (hst : m.state = .init)
+    {o' : Nat} {m' : PSIPMsg} (hr : parseSIPMsg b o m flags = (o', .ok, m')) :
+    ∃ o1 fl h hl hv, parseFLine b o m.fl = (o1, .ok, fl) ∧
+      parseHeaders b o1 m.hl (some m.pv) = (h, .ok, hl, some hv) ∧
+      msgBody b h (afaBodyEntry m o fl hl hv) flags = (o', .ok, m') := by
+  rcases hf : parseFLine b o m.fl with ⟨o1, e1, fl⟩
+  by_cases he1 : e1 = .ok
+  · subst he1
+    rcases hh : parseHeaders b o1 m.hl (some m.pv) with ⟨h, e2, hl, hb⟩
+    obtain ⟨hv, rfl⟩ := afa_parseHeaders_some b o1 m.hl m.pv hh
+    by_cases he2 : e2 = .ok
+    · subst he2
+      exact ⟨o1, fl, h, hl, hv, rfl, hh, by rw [← parseSIPMsg_eq_msgBody b o o1 h m flags fl hl hv hst hf hh]; exact hr⟩
+    · exfalso
+      have : (parseSIPMsg b o m flags).2.1 ≠ .ok := by
+        unfold parseSIPMsg; rw [hst]; simp only
+        unfold msgFLine; simp only [hf]
+        unfold msgHeaders; simp only [hh]
+        cases e2 <;> first | exact absurd rfl he2 | exact afa_msgErr_ne_ok _ _ _ _ (by decide)
+      rw [hr] at this; exact this rfl
+  · exfalso
+    have : (parseSIPMsg b o m flags).2.1 ≠ .ok := by
+      unfold parseSIPMsg; rw [hst]; simp only
+      unfold msgFLine; simp only [hf]
+      cases e1 <;> first | exact absurd rfl he1 | exact afa_msgErr_ne_ok _ _ _ _ (by decide)
+    rw [hr] at this; exact this rfl
+
+/-- the body section never touches the header values -/
+theorem afa_msgBody_pv (b : Buf) (h : Nat) (m : PSIPMsg) (flags : Nat) : (msgBody b h m flags).2.2.pv = m.pv := by
+  unfold msgBody msgEnd PSIPMsg.setBufs
+  simp only
+  repeat' split
+  all_goals rfl
+
+/-- **Content-Length framing of ParseSIPMsg itself** (body parsing on, more data may come): the first line was OK,
+    ParseHeaders stopped with OK at `h` and its values object `hv` holds a parsed Content-Length `n = hv.clen.uiVal`.
+    Then: the verdict is OK iff `h + n ≤ len(buf)`; if so the returned offset is `h + n`, the body field is
+    `Set(h,h)` extended to `h + n`, and the returned object carries exactly `hv`; otherwise the verdict is MoreBytes
+    at `h` (nothing of the body consumed). -/
+theorem parseSIPMsg_clen_framing (b : Buf) (o o1 h : Nat) (m : PSIPMsg) (flags : Nat) (fl : PFLine) (hl : HdrLst)
+    (hv : PHdrVals) (hst : m.state = .init) (hf : parseFLine b o m.fl = (o1, .ok, fl))
+    (hh : parseHeaders b o1 m.hl (some m.pv) = (h, .ok, hl, some hv))
+    (hs : hasFlag flags SIPMsgSkipBodyF = false) (hn : hasFlag flags SIPMsgNoMoreDataF = false)
+    (hc : hv.clen.parsed = true) :
+    ((parseSIPMsg b o m flags).2.1 = .ok ↔ h + hv.clen.uiVal ≤ b.size) ∧
+    (h + hv.clen.uiVal ≤ b.size →
+      (parseSIPMsg b o m flags).1 = h + hv.clen.uiVal ∧
+      (parseSIPMsg b o m flags).2.2.body = (PField.set h h).extend (h + hv.clen.uiVal) ∧
+      (parseSIPMsg b o m flags).2.2.state = .fin ∧ (parseSIPMsg b o m flags).2.2.pv = hv) ∧
+    (¬ h + hv.clen.uiVal ≤ b.size →
+      (parseSIPMsg b o m flags).1 = h ∧ (parseSIPMsg b o m flags).2.1 = .moreBytes) := by
+  rw [parseSIPMsg_eq_msgBody b o o1 h m flags fl hl hv hst hf hh]
+  have hc' : (afaBodyEntry m o fl hl hv).pv.clen.parsed = true := hc
+  have hu : (afaBodyEntry m o fl hl hv).pv.clen.uiVal = hv.clen.uiVal := rfl
+  by_cases hfit : h + hv.clen.uiVal ≤ b.size
+  · have hng : ¬ (h + hv.clen.uiVal > b.size) := by omega
+    have hb : msgBody b h (afaBodyEntry m o fl hl hv) flags =
+        msgEnd { afaBodyEntry m o fl hl hv with body := PField.set h h } b (h + hv.clen.uiVal) := by
+      unfold msgBody
+      simp only [hs, hc', hu, hng, Bool.false_eq_true, ↓reduceIte]
+    refine ⟨⟨fun _ => hfit, fun _ => by rw [hb]; rfl⟩, fun _ => ?_, fun hx => absurd hfit hx⟩
+    rw [hb]
+    exact ⟨rfl, rfl, rfl, rfl⟩
+  · have hg : h + hv.clen.uiVal > b.size := by omega
+    have hb : msgBody b h (afaBodyEntry m o fl hl hv) flags =
+        (h, .moreBytes, { afaBodyEntry m o fl hl hv with body := PField.set h h }) := by
+      unfold msgBody
+      simp only [hs, hc', hu, hg, hn, Bool.false_eq_true, ↓reduceIte]
+    refine ⟨⟨fun hq => ?_, fun hq => absurd hq hfit⟩, fun hq => absurd hq hfit, fun _ => ?_⟩
+    · rw [hb] at hq; cases hq
+    · rw [hb]; exact ⟨rfl, rfl⟩
+
+/-- **the corollary in the property's words**: ParseSIPMsg on a state-`init` object returned OK with object `m'`, a
+    Content-Length header was parsed (`m'.pv.clen.parsed`), body parsing on, more data may come. Then there is the
+    offset `h` where ParseHeaders stopped (OK) such that the `n = m'.pv.clen.uiVal` body bytes are all there
+    (`h + n ≤ len(buf)`), the returned offset is `h + n` — the first byte after the body — and the body field is
+    `Set(h,h).Extend(h+n)`, i.e. `[h, h+n)` when it fits the 16-bit fields. -/
+theorem parseSIPMsg_ok_clen (b : Buf) (o : Nat) (m : PSIPMsg) (flags : Nat) (hst : m.state = .init)
+    (hs : hasFlag flags SIPMsgSkipBodyF = false) (hn : hasFlag flags SIPMsgNoMoreDataF = false)
+    {o' : Nat} {m' : PSIPMsg} (hr : parseSIPMsg b o m flags = (o', .ok, m')) (hc : m'.pv.clen.parsed = true) :
+    ∃ o1 fl h hl, parseFLine b o m.fl = (o1, .ok, fl) ∧
+      parseHeaders b o1 m.hl (some m.pv) = (h, .ok, hl, some m'.pv) ∧
+      h + m'.pv.clen.uiVal ≤ b.size ∧ o' = h + m'.pv.clen.uiVal ∧
+      m'.body = (PField.set h h).extend (h + m'.pv.clen.uiVal) ∧
+      (h + m'.pv.clen.uiVal < 65536 → m'.body.offs = h ∧ m'.body.len = m'.pv.clen.uiVal) := by
+  obtain ⟨o1, fl, h, hl, hv, hf, hh, hb⟩ := parseSIPMsg_ok_path b o m flags hst hr
+  have hpv : m'.pv = hv := by
+    have := afa_msgBody_pv b h (afaBodyEntry m o fl hl hv) flags
+    rw [hb] at this; exact this
+  subst hpv
+  have hfr := parseSIPMsg_clen_framing b o o1 h m flags fl hl m'.pv hst hf hh hs hn hc
+  rw [hr] at hfr
+  have hfit := hfr.1.1 rfl
+  have h2 := hfr.2.1 hfit
+  refine ⟨o1, fl, h, hl, hf, hh, hfit, h2.1, h2.2.1, fun hlim => ?_⟩
+  have hbody : m'.body = (PField.set h h).extend (h + m'.pv.clen.uiVal) := h2.2.1
+  rw [hbody]
+  simp only [PField.set, PField.extend, trunc16]
+  have e1 : h % 65536 = h := Nat.mod_eq_of_lt (by omega)
+  have e2 : (h + m'.pv.clen.uiVal) % 65536 = h + m'.pv.clen.uiVal := Nat.mod_eq_of_lt hlim
+  rw [e1, e2]
+  exact ⟨rfl, by omega⟩
+
+/-! ## (B) C04, part 1: the guard of `viaBrLoop` (GetViaBrSig) always holds — its else-exit is dead code -/
+
+/-- **the guard of `viaBrLoop` holds on every input**: a MoreValues verdict of the parameter parser (new object,
+    the Via-branch options) lies strictly after the start and inside the buffer -/
+theorem afa_viaBr_guard (b : Buf) (offs next : Nat) (p : PTokParam) (ho : offs ≤ b.size)
+    (hp : parseTokenParam b offs {} viaBrFlags = (next, .moreValues, p)) : offs < next ∧ next ≤ b.size := by
+  have e : viaBrFlags = (17 ||| POptInputEndF) := by decide
+  rw [e] at hp
+  have hf : hasFlag 17 POptInputEndF = false := by decide
+  have hr := parseTokenParam_range_end b offs {} 17 hf ho hp
+  refine ⟨?_, hr.2⟩
+  rcases Nat.lt_or_ge offs next with h | h
+  · exact h
+  · have : next = offs := by omega
+    subst this
+    have := parseTokenParam_mv_start_end b next {} 17 hf hp
+    cases this
+
+/-- one round of the Go loop of GetViaBrSig, the `continue` being the call of `k` — WITHOUT any guard -/
+def afaViaBrRound (b : Buf) (k : Nat → Nat × Nat × Bool) (offs : Nat) : Nat × Nat × Bool :=
+  match parseTokenParam b offs {} viaBrFlags with
+  | (next, e, p) =>
+    if p.pnc then (0, 0, true)
+    else if e == .ok || e == .moreValues || e == .eoh then
+      let isBranch : Option Bool :=
+        if p.name.len == 6 then (p.name.get? b).map (fun nm => cmpEqL nm sBranch) else some false
+      match isBranch with
+      | none => (0, 0, true)
+      | some true =>
+        if p.val.len > 0 then
+          match p.val.get? b with
+          | none => (0, 0, true)
+          | some val =>
+            if val.size > 7 && cmpEqL (val.extract 0 7) sBrPrefix then
+              ((getStrCharsSig (val.extract 7 val.size) 0 0).1, val.size - 7, false)
+            else ((getStrCharsSig val 0 0).1, val.size, false)
+        else (0, 0, false)
+      | some false => if e == .moreValues then k next else (0, 0, false)
+    else (0, 0, false)
+
+/-- **`viaBrLoop` satisfies the recursion of the Go loop without the guard** (every offset inside the buffer) -/
+theorem viaBrLoop_unguarded (b : Buf) (offs : Nat) (ho : offs ≤ b.size) :
+    viaBrLoop b offs = afaViaBrRound b (viaBrLoop b) offs := by
+  rw [viaBrLoop]
+  unfold afaViaBrRound
+  rcases hp : parseTokenParam b offs {} viaBrFlags with ⟨next, e, p⟩
+  simp only
+  by_cases hmv : e = .moreValues
+  · subst hmv
+    have hg := afa_viaBr_guard b offs next p ho hp
+    simp only [hg, and_self, ↓reduceIte]
+    rfl
+  · have : (e == Err.moreValues) = false := by simpa using hmv
+    simp only [this, Bool.false_eq_true, ↓reduceIte]
+    rfl
+
+/-- `viaBrLoop` with an ARBITRARY result `x` at the guard's else-exit -/
+def afaViaBrLoopX (x : Nat × Nat × Bool) (b : Buf) (offs : Nat) : Nat × Nat × Bool :=
+  match parseTokenParam b offs {} viaBrFlags with
+  | (next, e, p) =>
+    if p.pnc then (0, 0, true)
+    else if e == .ok || e == .moreValues || e == .eoh then
+      let isBranch : Option Bool :=
+        if p.name.len == 6 then (p.name.get? b).map (fun nm => cmpEqL nm sBranch) else some false
+      match isBranch with
+      | none => (0, 0, true)
+      | some true =>
+        if p.val.len > 0 then
+          match p.val.get? b with
+          | none => (0, 0, true)
+          | some val =>
+            if val.size > 7 && cmpEqL (val.extract 0 7) sBrPrefix then
+              ((getStrCharsSig (val.extract 7 val.size) 0 0).1, val.size - 7, false)
+            else ((getStrCharsSig val 0 0).1, val.size, false)
+        else (0, 0, false)
+      | some false =>
+        if e == .moreValues then
+          if offs < next ∧ next ≤ b.size then afaViaBrLoopX x b next else x
+        else (0, 0, false)
+    else (0, 0, false)
+termination_by b.size - offs
+decreasing_by omega
+
+theorem afaViaBrLoopX_model (b : Buf) (offs : Nat) : afaViaBrLoopX (0, 0, false) b offs = viaBrLoop b offs := by
+  induction hk : b.size - offs using Nat.strongRecOn generalizing offs with
+  | _ k ih =>
+    rw [viaBrLoop, afaViaBrLoopX]
+    rcases hp : parseTokenParam b offs {} viaBrFlags with ⟨next, e, p⟩
+    simp only
+    by_cases hg : offs < next ∧ next ≤ b.size
+    · rw [if_pos hg, if_pos hg, ih (b.size - next) (by omega) next rfl]
+      rfl
+    · rw [if_neg hg, if_neg hg]
+      rfl
+
+/-- **the result of `viaBrLoop` does not depend on what its else-exit returns** -/
+theorem viaBrLoop_exit_irrelevant (x : Nat × Nat × Bool) (b : Buf) (offs : Nat) (ho : offs ≤ b.size) :
+    afaViaBrLoopX x b offs = viaBrLoop b offs := by
+  induction hk : b.size - offs using Nat.strongRecOn generalizing offs with
+  | _ k ih =>
+    rw [viaBrLoop, afaViaBrLoopX]
+    rcases hp : parseTokenParam b offs {} viaBrFlags with ⟨next, e, p⟩
+    simp only
+    by_cases hmv : e = .moreValues
+    · subst hmv
+      have hg := afa_viaBr_guard b offs next p ho hp
+      rw [if_pos hg, if_pos hg, ih (b.size - next) (by omega) next hg.2 rfl]
+      rfl
+    · have : (e == Err.moreValues) = false := by simpa using hmv
+      simp only [this, Bool.false_eq_true, ↓reduceIte]
+      rfl
+
+/-- `GetViaBrSig` with an arbitrary result at the dead exit -/
+def afaGetViaBrSigX (x : Nat × Nat × Bool) (b : Buf) : Nat × Nat × Bool :=
+  match indexByteFrom b 0 59 with
+  | none => (0, 0, false)
+  | some o => afaViaBrLoopX x b (o + 1)
+
+/-- **GetViaBrSig, every input: the model-only exit is never taken** (whatever it would return, the result is the same) -/
+theorem getViaBrSig_exit_irrelevant (x : Nat × Nat × Bool) (b : Buf) : afaGetViaBrSigX x b = getViaBrSig b := by
+  unfold afaGetViaBrSigX getViaBrSig
+  cases h : indexByteFrom b 0 59 with
+  | none => rfl
+  | some o =>
+    have := get?_lt (indexByteFrom_some b 0 59 h).2.1
+    exact viaBrLoop_exit_irrelevant x b (o + 1) (by omega)
+
+/-! ## (B) C04, part 2: the model-only verdict `lbug` is never returned
+
+  `afaNL s`: the step result `s`, if it ends the loop, does not carry the model-only verdict. -/
+
+/-- closes `c ≠ .lbug` for a constructor `c` -/
+macro "afa_ne" : tactic => `(tactic| (intro hh; cases hh; done))
+
+def afaNL {σ : Type} : Step σ → Prop
+  | .cont _ _ => True
+  | .done _ e _ => e ≠ .lbug
+
+theorem afaNL_done {σ : Type} {o : Nat} {e : Err} {st : σ} (h : e ≠ .lbug) : afaNL (Step.done o e st) := h
+
+/-- a loop whose body makes progress and never ends with `lbug` never returns `lbug` -/
+theorem afa_runLoop_nl {σ : Type} (m : Machine σ) (hp : Progress m) (b : Buf)
+    (hd : ∀ i c st, b[i]? = some c → afaNL (m.step b i c st))
+    (he : ∀ i st, (m.eob b i st).2.1 ≠ .lbug) (i : Nat) (st : σ) : (runLoop m b i st).2.1 ≠ .lbug := by
+  apply runLoop_inv m b (fun _ _ => True) (fun r => r.2.1 ≠ Err.lbug)
+  · intro i c st i' st' hb _ hs
+    exact ⟨fun _ => trivial, fun hn => absurd (hp b i c st i' st' hb hs) hn⟩
+  · intro i c st o e st' hb _ hs
+    have := hd i c st hb
+    rw [hs] at this
+    exact this
+  · intro i st _ _; exact he i st
+  · trivial
+
+theorem afa_skipLWS_nl (b : Buf) (i flags : Nat) {n crl : Nat} {e : Err} (h : skipLWS b i flags = (n, crl, e)) :
+    e ≠ .lbug := by
+  rcases skipLWS_verdicts b i flags h with rfl | rfl | rfl | rfl <;> decide
+
+theorem afa_skipCRLF_nl {b : Buf} {i n crl : Nat} {e : Err} (h : skipCRLF b i = (n, crl, e)) : e ≠ .lbug := by
+  rcases skipCRLF_verdicts h with rfl | rfl | rfl <;> decide
+
+/-! ### ParseTokenParam -/
+
+theorem afa_tpEOH_nl (p : PTokParam) (n crl : Nat) : (tpEOH p n crl).2.1 ≠ .lbug := by
+  unfold tpEOH
+  cases p.state <;> (intro h; cases h)
+
+theorem afa_tpMoreBytes_nl (b : Buf) (flags : Nat) (p : PTokParam) (i : Nat) : (tpMoreBytes b flags p i).2.1 ≠ .lbug := by
+  unfold tpMoreBytes
+  split
+  · cases p.state <;> first | exact afa_tpEOH_nl _ _ _ | (intro h; cases h)
+  · intro h; cases h
+
+theorem afa_tpLWS_nl (b : Buf) (flags i : Nat) (p : PTokParam) (upd : PTokParam → PTokParam) :
+    afaNL (tpLWS b flags i p upd) := by
+  unfold tpLWS
+  rcases hs : skipLWS b i flags with ⟨n, crl, e⟩
+  have hne := afa_skipLWS_nl b i flags hs
+  cases e
+  all_goals first
+    | exact afa_tpMoreBytes_nl b flags p i
+    | exact afa_tpEOH_nl _ _ _
+    | exact hne
+    | exact True.intro
+
+theorem afa_skipQuoted_nl (b : Buf) (i : Nat) : (skipQuoted b i).2 ≠ .lbug := by
+  unfold skipQuoted
+  refine afa_runLoop_nl sqMachine sq_progress b ?_ (by intro i st; simp [sqMachine]) i ()
+  intro i c st _
+  show afaNL (sqStep b i c st)
+  unfold sqStep
+  repeat' split
+  all_goals first | exact True.intro | afa_ne
+
+theorem afa_tpSpTermSep_nl (b : Buf) (offs i : Nat) (p : PTokParam) : afaNL (tpSpTermSep b offs i p) := by
+  unfold tpSpTermSep
+  simp only
+  repeat' split
+  all_goals afa_ne
+
+theorem afa_tpSpTermEq_nl (offs i : Nat) (p : PTokParam) : afaNL (tpSpTermEq offs i p) := by
+  unfold tpSpTermEq
+  split <;> afa_ne
+
+theorem afa_tpStep_nl (flags offs : Nat) (b : Buf) (i : Nat) (c : UInt8) (p : PTokParam) :
+    afaNL (tpStep flags offs b i c p) := by
+  unfold tpStep
+  simp only
+  split
+  all_goals
+    repeat' split
+    all_goals first
+      | exact True.intro
+      | exact afa_tpLWS_nl b flags i p _
+      | exact afa_tpSpTermSep_nl b offs i p
+      | exact afa_tpSpTermEq_nl offs i p
+      | exact afa_tpMoreBytes_nl b flags p _
+      | exact afa_tpEOH_nl _ _ _
+      | (have hq := afa_skipQuoted_nl b i; rw [‹skipQuoted b i = _›] at hq; exact hq)
+      | afa_ne
+
+/-- **ParseTokenParam never returns the model-only verdict** (every buffer, offset, object, option set) -/
+theorem parseTokenParam_ne_lbug (b : Buf) (offs : Nat) (p : PTokParam) (flags : Nat) :
+    (parseTokenParam b offs p flags).2.1 ≠ .lbug := by
+  unfold parseTokenParam
+  split
+  · afa_ne
+  · exact afa_runLoop_nl (tpMachine flags offs) (tp_progress flags offs) b
+      (fun i c st _ => afa_tpStep_nl flags offs b i c st)
+      (fun i st => afa_tpMoreBytes_nl b flags st i) offs p
+
+/-! ### ParseAllURIParams / ParseAllURIHdrs: the loop guard never fails on a clean list -/
+
+theorem afa_hasFlag_end_bit (f : Nat) : hasFlag f POptInputEndF = f.testBit 3 := by
+  unfold hasFlag
+  show ((f &&& 8) != 0) = f.testBit 3
+  have e8 : (8:Nat) = 2^3 := by decide
+  cases h : f.testBit 3
+  · have : f &&& 8 = 0 := by
+      apply Nat.eq_of_testBit_eq
+      intro i
+      rw [Nat.testBit_and, e8, Nat.testBit_two_pow, Nat.zero_testBit]
+      by_cases hi : 3 = i
+      · subst hi; simp [h]
+      · simp [hi]
+    rw [this]; rfl
+  · have : (f &&& 8).testBit 3 = true := by
+      rw [Nat.testBit_and, e8, Nat.testBit_two_pow, h]; rfl
+    have hne : f &&& 8 ≠ 0 := by
+      intro h0; rw [h0, Nat.zero_testBit] at this; cases this
+    simpa using hne
+
+/-- every option word either lacks the end-of-input option or is some word without it, plus the option -/
+theorem afa_flag_split (flags : Nat) :
+    hasFlag flags POptInputEndF = false ∨ ∃ g, hasFlag g POptInputEndF = false ∧ flags = g ||| POptInputEndF := by
+  by_cases h : hasFlag flags POptInputEndF = true
+  · right
+    rw [afa_hasFlag_end_bit] at h
+    have e8 : (8:Nat) = 2^3 := by decide
+    refine ⟨flags ^^^ 8, ?_, ?_⟩
+    · rw [afa_hasFlag_end_bit, Nat.testBit_xor, h, e8, Nat.testBit_two_pow]; rfl
+    · show flags = (flags ^^^ 8) ||| 8
+      apply Nat.eq_of_testBit_eq
+      intro i
+      rw [Nat.testBit_or, Nat.testBit_xor]
+      rw [e8, Nat.testBit_two_pow]
+      by_cases hi : 3 = i
+      · subst hi; simp [h]
+      · simp [hi]
+  · left; simpa using h
+
+/-- the guard of `uriParamsLoop`, EVERY option word (with or without the end-of-input option) -/
+theorem afa_pl_guard {b : Buf} {offs : Nat} {l : URIParamsLst} {flags next : Nat} {tp : PTokParam}
+    (hcl : plClean l) (ho : offs ≤ b.size)
+    (hp : parseTokenParam b offs l.cur.param flags = (next, .moreValues, tp)) (t : Nat) :
+    next ≤ b.size ∧ (offs < next ∨ (offs = next ∧ l.cur.param.state = .fNxt ∧
+      (l.next tp t).cur.param.state ≠ .fNxt)) := by
+  rcases afa_flag_split flags with hf | ⟨g, hg, rfl⟩
+  · exact pl_guard hf hcl ho hp t
+  · exact tpe_pl_guard hg hcl ho hp t
+
+/-- the guard of `uriHdrsLoop`, every option word -/
+theorem afa_hl_guard {b : Buf} {offs : Nat} {l : URIHdrsLst} {flags next : Nat} {tp : PTokParam}
+    (hcl : hlClean l) (ho : offs ≤ b.size)
+    (hp : parseTokenParam b offs l.cur flags = (next, .moreValues, tp)) :
+    next ≤ b.size ∧ (offs < next ∨ (offs = next ∧ l.cur.state = .fNxt ∧ (l.next tp).cur.state ≠ .fNxt)) := by
+  rcases afa_flag_split flags with hf | ⟨g, hg, rfl⟩
+  · exact hl_guard hf hcl ho hp
+  · exact tpe_hl_guard hg hcl ho hp
+
+theorem uriParamsLoop_ne_lbug (b : Buf) (flags offs : Nat) (l : URIParamsLst) (vNo : Nat)
+    (hcl : plClean l) (ho : offs ≤ b.size) : (uriParamsLoop b offs l flags vNo).2.2.1 ≠ .lbug := by
+  revert hcl ho
+  induction offs, l, vNo using uriParamsLoop_induct b flags with
+  | step offs l vNo ih =>
+    intro hcl ho
+    rcases hp : parseTokenParam b offs l.cur.param flags with ⟨next, e1, tp⟩
+    have hne : e1 ≠ .lbug := by
+      have := parseTokenParam_ne_lbug b offs l.cur.param flags
+      rw [hp] at this; exact this
+    by_cases hm : e1 = .moreBytes
+    · subst hm; rw [uriParamsLoop_eq_more hp]; afa_ne
+    by_cases hv : e1 = .moreValues
+    · subst hv
+      cases hg : tp.name.get? b with
+      | none => rw [uriParamsLoop_panic hp (Or.inr (Or.inl rfl)) hg]; afa_ne
+      | some nm =>
+        have hgd := afa_pl_guard hcl ho hp (uriParamResolve nm)
+        rw [uriParamsLoop_mv hp hg, if_pos hgd]
+        exact ih next tp nm hp hg hgd (plClean_next tp _ hcl).1 hgd.1
+    by_cases hk : e1 = .ok
+    · subst hk
+      cases hg : tp.name.get? b with
+      | none => rw [uriParamsLoop_panic hp (Or.inl rfl) hg]; afa_ne
+      | some nm => rw [uriParamsLoop_eq_last hp (Or.inl rfl) hg]; afa_ne
+    by_cases he : e1 = .eoh
+    · subst he
+      cases hg : tp.name.get? b with
+      | none => rw [uriParamsLoop_panic hp (Or.inr (Or.inr rfl)) hg]; afa_ne
+      | some nm => rw [uriParamsLoop_eq_last hp (Or.inr rfl) hg]; afa_ne
+    · rw [uriParamsLoop_err hp hk hv he hm]; exact hne
+
+/-- **ParseAllURIParams never takes the model-only exit**: every buffer, every offset inside it, every option word,
+    every clean list (unused slots zero: new lists of any capacity, lists after Reset, lists returned by earlier
+    calls — see `plOK_new`, `plOK_reset`, `parseAllURIParams_post`) -/
+theorem parseAllURIParams_ne_lbug (b : Buf) (offs : Nat) (l : URIParamsLst) (flags : Nat)
+    (hcl : plClean l) (ho : offs ≤ b.size) : (parseAllURIParams b offs l flags).2.2.1 ≠ .lbug := by
+  unfold parseAllURIParams
+  exact uriParamsLoop_ne_lbug b _ offs l 0 hcl ho
+
+theorem uriHdrsLoop_ne_lbug (b : Buf) (flags offs : Nat) (l : URIHdrsLst) (vNo : Nat)
+    (hcl : hlClean l) (ho : offs ≤ b.size) : (uriHdrsLoop b offs l flags vNo).2.2.1 ≠ .lbug := by
+  revert hcl ho
+  induction offs, l, vNo using uriHdrsLoop_induct b flags with
+  | step offs l vNo ih =>
+    intro hcl ho
+    rcases hp : parseTokenParam b offs l.cur flags with ⟨next, e1, tp⟩
+    have hne : e1 ≠ .lbug := by
+      have := parseTokenParam_ne_lbug b offs l.cur flags
+      rw [hp] at this; exact this
+    by_cases hm : e1 = .moreBytes
+    · subst hm; rw [uriHdrsLoop_eq_more hp]; afa_ne
+    by_cases hv : e1 = .moreValues
+    · subst hv
+      have hgd := afa_hl_guard hcl ho hp
+      rw [uriHdrsLoop_mv hp, if_pos hgd]
+      exact ih next tp hp hgd (hlClean_next tp hcl).1 hgd.1
+    by_cases hk : e1 = .ok
+    · subst hk; rw [uriHdrsLoop_eq_last hp (Or.inl rfl)]; afa_ne
+    by_cases he : e1 = .eoh
+    · subst he; rw [uriHdrsLoop_eq_last hp (Or.inr rfl)]; afa_ne
+    · rw [uriHdrsLoop_err hp hk hv he hm]; exact hne
+
+/-- **ParseAllURIHdrs never takes the model-only exit** (as `parseAllURIParams_ne_lbug`; `hlClean_new`, `hlClean_reset`,
+    `parseAllURIHdrs_post`) -/
+theorem parseAllURIHdrs_ne_lbug (b : Buf) (offs : Nat) (l : URIHdrsLst) (flags : Nat)
+    (hcl : hlClean l) (ho : offs ≤ b.size) : (parseAllURIHdrs b offs l flags).2.2.1 ≠ .lbug := by
+  unfold parseAllURIHdrs
+  exact uriHdrsLoop_ne_lbug b _ offs l 0 hcl ho
+
+/-- new lists of any capacity and lists after Reset qualify -/
+theorem afa_lists_qualify (k : Nat) (lp : URIParamsLst) (lh : URIHdrsLst) (hp : plClean lp) (hh : hlClean lh) :
+    plClean ({ params := Array.replicate k {} } : URIParamsLst) ∧ hlClean ({ hdrs := Array.replicate k {} } : URIHdrsLst) ∧
+    plClean lp.reset ∧ hlClean lh.reset :=
+  ⟨(plOK_new #[] k).2, hlClean_new k, (plOK_reset #[] hp).1.2, (hlClean_reset hh).1⟩
+
+/-! ### the header value parsers -/
+
+theorem afa_lwsStd_nl {σ : Type} (b : Buf) (i : Nat) (st : σ) (eoh : σ → Nat → Nat → Nat → Nat × Err × σ)
+    (mb : σ → σ) (heoh : ∀ s j n crl, (eoh s j n crl).2.1 ≠ .lbug) : afaNL (lwsStd b i st eoh mb) := by
+  unfold lwsStd
+  rcases hs : skipLWS b i 0 with ⟨n, crl, e⟩
+  have hne := afa_skipLWS_nl b i 0 hs
+  cases e
+  all_goals first
+    | exact heoh _ _ _ _
+    | exact hne
+    | exact True.intro
+
+theorem afa_ciEOH_nl (s : PCallIDBody) (j n crl : Nat) : (ciEOH s j n crl).2.1 ≠ .lbug := by
+  unfold ciEOH; cases s.state <;> afa_ne
+theorem afa_clEOH_nl (s : PUIntBody) (j n crl : Nat) : (clEOH s j n crl).2.1 ≠ .lbug := by
+  unfold clEOH; cases s.state <;> afa_ne
+theorem afa_csEOH_nl (b : Buf) (s : PCSeqBody) (j n crl : Nat) : (csEOH b s j n crl).2.1 ≠ .lbug := by
+  unfold csEOH csFinish
+  cases s.state <;> simp only <;> (repeat' split) <;> afa_ne
+
+theorem parseCallIDVal_ne_lbug (b : Buf) (o : Nat) (st : PCallIDBody) : (parseCallIDVal b o st).2.1 ≠ .lbug := by
+  unfold parseCallIDVal
+  split
+  · afa_ne
+  · refine afa_runLoop_nl ciMachine ci_progress b ?_ (by intro i s; simp [ciMachine]) o st
+    intro i c s _
+    show afaNL (ciStep b i c s)
+    unfold ciStep
+    repeat' split
+    all_goals first
+      | exact True.intro
+      | exact afa_lwsStd_nl b i _ ciEOH id afa_ciEOH_nl
+      | afa_ne
+
+theorem parseUIntVal_ne_lbug (b : Buf) (o : Nat) (st : PUIntBody) : (parseUIntVal b o st).2.1 ≠ .lbug := by
+  unfold parseUIntVal
+  split
+  · afa_ne
+  · refine afa_runLoop_nl clMachine cl_progress b ?_ (by intro i s; simp [clMachine]) o st
+    intro i c s _
+    show afaNL (clStep b i c s)
+    unfold clStep
+    repeat' split
+    all_goals first
+      | exact True.intro
+      | exact afa_lwsStd_nl b i _ clEOH id afa_clEOH_nl
+      | afa_ne
+      | (simp only; split <;> first | exact True.intro | afa_ne)
+
+theorem parseCLenVal_ne_lbug (b : Buf) (o : Nat) (st : PUIntBody) : (parseCLenVal b o st).2.1 ≠ .lbug := by
+  unfold parseCLenVal
+  have := parseUIntVal_ne_lbug b o st
+  rcases hp : parseUIntVal b o st with ⟨o1, e1, s1⟩
+  rw [hp] at this
+  cases e1 <;> simp only <;> first | exact this | (split <;> afa_ne)
+
+theorem parseCSeqVal_ne_lbug (b : Buf) (o : Nat) (st : PCSeqBody) : (parseCSeqVal b o st).2.1 ≠ .lbug := by
+  unfold parseCSeqVal
+  split
+  · afa_ne
+  · refine afa_runLoop_nl csMachine cs_progress b ?_ (by intro i s; simp [csMachine]) o st
+    intro i c s _
+    show afaNL (csStep b i c s)
+    unfold csStep
+    repeat' split
+    all_goals first
+      | exact True.intro
+      | exact afa_lwsStd_nl b i _ (csEOH b) id (afa_csEOH_nl b)
+      | afa_ne
+      | (simp only; split <;> first | exact True.intro | afa_ne)
+
+/-! ### ParseNameAddrPVal (33 states) -/
+
+theorem afa_naEOH_nl (h : Nat) (b : Buf) (pf : PFromBody) (i n crl : Nat) (r : Err) (hr : r ≠ .lbug) :
+    (naEOH h b pf i n crl r).2.1 ≠ .lbug := by
+  unfold naEOH
+  cases pf.state <;> simp only [naFinish] <;> first | exact hr | afa_ne
+
+theorem afa_naMoreValues_nl (h : Nat) (b : Buf) (pf : PFromBody) (i : Nat) : afaNL (naMoreValues h b pf i) := by
+  unfold naMoreValues
+  exact afa_naEOH_nl h b pf i i 1 _ (by afa_ne)
+
+theorem afa_naCommaAfterWS_nl (h : Nat) (b : Buf) (pf : PFromBody) (i k : Nat) :
+    afaNL (naCommaAfterWS h b pf i k) := by
+  unfold naCommaAfterWS
+  split
+  · exact afa_naEOH_nl h b pf k i 1 _ (by afa_ne)
+  · afa_ne
+
+theorem afa_naLWS_nl (h : Nat) (b : Buf) (i : Nat) (pf : PFromBody) : afaNL (naLWS h b i pf) := by
+  unfold naLWS
+  exact afa_lwsStd_nl b i pf _ _ (fun s j n crl => afa_naEOH_nl h b s j n crl .ok (by afa_ne))
+
+/-- the white-space sites of the parameter name / value states -/
+theorem afa_naPV_site_nl (h : Nat) (b : Buf) (i : Nat) (pf pf1 pf2 pf3 : PFromBody) :
+    afaNL (match skipLWS b i 0 with
+      | (_, _, .moreBytes) => Step.done i .moreBytes pf.saveS
+      | (n, _, .ok) => .cont n pf1
+      | (n, crl, .eoh) => let r := naEOH h b pf2 i n crl .ok; .done r.1 r.2.1 r.2.2
+      | (n, _, e) => .done n e pf3) := by
+  rcases hsk : skipLWS b i 0 with ⟨n, crl, e1⟩
+  have hne := afa_skipLWS_nl b i 0 hsk
+  cases e1
+  all_goals first
+    | exact afa_naEOH_nl h b _ i n crl .ok (by afa_ne)
+    | exact hne
+    | exact True.intro
+
+theorem afa_naStepA_nl (h : Nat) (b : Buf) (i : Nat) (c : UInt8) (pf : PFromBody) : afaNL (naStepA h b i c pf) := by
+  unfold naStepA
+  repeat' split
+  all_goals first
+    | exact True.intro
+    | exact afa_naLWS_nl h b i _
+    | exact afa_naMoreValues_nl h b _ i
+    | afa_ne
+
+theorem afa_naStepQ_nl (h : Nat) (b : Buf) (i : Nat) (c : UInt8) (pf : PFromBody) : afaNL (naStepQ h b i c pf) := by
+  unfold naStepQ
+  repeat' split
+  all_goals first
+    | exact True.intro
+    | exact afa_naLWS_nl h b i _
+    | afa_ne
+
+theorem afa_naStepU_nl (i : Nat) (c : UInt8) (pf : PFromBody) : afaNL (naStepU i c pf) := by
+  unfold naStepU
+  repeat' split
+  all_goals first
+    | exact True.intro
+    | afa_ne
+
+theorem afa_naStepUF_nl (h : Nat) (b : Buf) (i : Nat) (c : UInt8) (pf : PFromBody) : afaNL (naStepUF h b i c pf) := by
+  unfold naStepUF
+  repeat' split
+  all_goals first
+    | exact True.intro
+    | exact afa_naLWS_nl h b i _
+    | exact afa_naMoreValues_nl h b _ i
+    | afa_ne
+
+theorem afa_naStepStar_nl (h : Nat) (b : Buf) (i : Nat) (c : UInt8) (pf : PFromBody) :
+    afaNL (naStepStar h b i c pf) := by
+  unfold naStepStar
+  split
+  · exact afa_naLWS_nl h b i _
+  · afa_ne
+
+theorem afa_naStepP_nl (h : Nat) (b : Buf) (i : Nat) (c : UInt8) (pf : PFromBody) : afaNL (naStepP h b i c pf) := by
+  unfold naStepP
+  split
+  · exact afa_naPV_site_nl h b i pf _ _ _
+  · repeat' split
+    all_goals first
+      | exact True.intro
+      | exact afa_naMoreValues_nl h b _ i
+      | afa_ne
+
+theorem afa_naStepV_nl (h : Nat) (b : Buf) (i : Nat) (c : UInt8) (pf : PFromBody) : afaNL (naStepV h b i c pf) := by
+  unfold naStepV
+  split
+  · rcases hsk : skipLWS b i 0 with ⟨n, crl, e1⟩
+    have hne := afa_skipLWS_nl b i 0 hsk
+    cases e1
+    all_goals first
+      | exact afa_naEOH_nl h b _ i n crl .ok (by afa_ne)
+      | exact hne
+      | exact True.intro
+  · repeat' split
+    all_goals first
+      | exact True.intro
+      | exact afa_naMoreValues_nl h b _ i
+      | afa_ne
+
+theorem afa_naStepPE_nl (h : Nat) (b : Buf) (i : Nat) (c : UInt8) (pf : PFromBody) : afaNL (naStepPE h b i c pf) := by
+  unfold naStepPE
+  repeat' split
+  all_goals first
+    | exact True.intro
+    | exact afa_naCommaAfterWS_nl h b _ i _
+    | afa_ne
+
+theorem afa_naStepVE_nl (h : Nat) (b : Buf) (i : Nat) (c : UInt8) (pf : PFromBody) : afaNL (naStepVE h b i c pf) := by
+  unfold naStepVE
+  repeat' split
+  all_goals first
+    | exact True.intro
+    | exact afa_naCommaAfterWS_nl h b _ i _
+    | afa_ne
+
+theorem afa_naStep_nl (h : Nat) (b : Buf) (i : Nat) (c : UInt8) (pf : PFromBody) : afaNL (naStep h b i c pf) := by
+  unfold naStep
+  split
+  all_goals first
+    | exact afa_naStepA_nl h b i c pf
+    | exact afa_naStepQ_nl h b i c pf
+    | exact afa_naStepU_nl i c pf
+    | exact afa_naStepUF_nl h b i c pf
+    | exact afa_naStepP_nl h b i c pf
+    | exact afa_naStepPE_nl h b i c pf
+    | exact afa_naStepV_nl h b i c pf
+    | exact afa_naStepVE_nl h b i c pf
+    | exact afa_naStepStar_nl h b i c pf
+    | exact True.intro
+
+/-- **ParseNameAddrPVal never returns the model-only verdict** (every header kind, buffer, offset, object) -/
+theorem parseNameAddrPVal_ne_lbug (h : Nat) (b : Buf) (o : Nat) (pf : PFromBody) :
+    (parseNameAddrPVal h b o pf).2.1 ≠ .lbug := by
+  unfold parseNameAddrPVal
+  split
+  · afa_ne
+  · simp only
+    exact afa_runLoop_nl (naMachine h) (na_progress h) b (fun i c st _ => afa_naStep_nl h b i c st)
+      (by intro i st; simp [naMachine]) o _
+
+theorem parseOnePAI_ne_lbug (b : Buf) (o : Nat) (pf : PFromBody) : (parseOnePAI b o pf).2.1 ≠ .lbug := by
+  have hne := parseNameAddrPVal_ne_lbug HdrPAI b o pf
+  unfold parseOnePAI
+  rcases hp : parseNameAddrPVal HdrPAI b o pf with ⟨n, e, p⟩
+  rw [hp] at hne
+  simp only
+  split
+  · afa_ne
+  · exact hne
+
+/-! ### the value lists: the guards of `contactsLoop` / `paisLoop` never fail (NO hypothesis needed) -/
+
+/-- a MoreValues verdict of the name-addr parser lies strictly after the start and inside the buffer: the guard of
+    `contactsLoop` / `paisLoop` -/
+theorem afa_na_guard (t : Nat) (b : Buf) (offs next : Nat) (pf pf' : PFromBody)
+    (hp : parseNameAddrPVal t b offs pf = (next, .moreValues, pf')) : offs < next ∧ next ≤ b.size := by
+  by_cases hf : pf.state = .fin
+  · unfold parseNameAddrPVal at hp; rw [if_pos hf] at hp; cases hp
+  · exact (parseNameAddrPVal_post t b offs pf hp (Or.inr rfl)).2 hf
+
+theorem contactsLoop_ne_lbug (b : Buf) (offs : Nat) (c : PContacts) : (contactsLoop b offs c).2.1 ≠ .lbug := by
+  induction hk : b.size - offs using Nat.strongRecOn generalizing offs c with
+  | _ k ih =>
+    rw [contactsLoop]
+    have hne := parseNameAddrPVal_ne_lbug HdrContact b offs c.cur
+    rcases hp : parseOneContact b offs c.cur with ⟨next, e1, pf⟩
+    have hp' : parseNameAddrPVal HdrContact b offs c.cur = (next, e1, pf) := hp
+    rw [hp'] at hne
+    cases e1 <;> simp only <;> try (first | exact hne | afa_ne)
+    have hg := afa_na_guard HdrContact b offs next c.cur pf hp'
+    rw [if_pos hg]
+    exact ih (b.size - next) (by omega) next _ rfl
+
+/-- **ParseAllContactValues never takes the model-only exit**: every buffer, offset and object (in particular under
+    `CtSafe`, the hypothesis of `contacts_never_panics`) -/
+theorem parseAllContactValues_ne_lbug (b : Buf) (offs : Nat) (c : PContacts) :
+    (parseAllContactValues b offs c).2.1 ≠ .lbug := by
+  unfold parseAllContactValues; exact contactsLoop_ne_lbug b offs _
+
+theorem paisLoop_ne_lbug (b : Buf) (offs : Nat) (c : PPAIs) : (paisLoop b offs c).2.1 ≠ .lbug := by
+  induction hk : b.size - offs using Nat.strongRecOn generalizing offs c with
+  | _ k ih =>
+    rw [paisLoop]
+    have hne := parseOnePAI_ne_lbug b offs c.cur
+    rcases hp : parseOnePAI b offs c.cur with ⟨next, e1, pf⟩
+    rw [hp] at hne
+    obtain ⟨e0, h0, he0⟩ := parseOnePAI_inv hp
+    cases e1 <;> simp only <;> try (first | exact hne | afa_ne)
+    have he0' : e0 = .moreValues := by
+      split at he0
+      · cases he0
+      · exact he0.symm
+    subst he0'
+    have hg := afa_na_guard HdrPAI b offs next c.cur pf h0
+    rw [if_pos hg]
+    exact ih (b.size - next) (by omega) next _ rfl
+
+/-- **ParseAllPAIValues never takes the model-only exit** (every buffer, offset and object) -/
+theorem parseAllPAIValues_ne_lbug (b : Buf) (offs : Nat) (c : PPAIs) :
+    (parseAllPAIValues b offs c).2.1 ≠ .lbug := by
+  unfold parseAllPAIValues; exact paisLoop_ne_lbug b offs _
+
+/-! ### ParseHdrLine (no hypothesis) and ParseHeaders -/
+
+theorem parseBody_ne_lbug (b : Buf) (o : Nat) (h : Hdr) (hb : Option PHdrVals) :
+    (parseBody b o h hb).2.1 ≠ .lbug := by
+  unfold parseBody
+  cases hb with
+  | none => afa_ne
+  | some hv =>
+  simp only
+  by_cases h_from_ : (h.type == HdrFrom) = true
+  · simp only [h_from_, ↓reduceIte]
+    split
+    · exact parseNameAddrPVal_ne_lbug HdrFrom b o _
+    · afa_ne
+  simp only [h_from_, Bool.false_eq_true, ↓reduceIte]
+  by_cases h_to : (h.type == HdrTo) = true
+  · simp only [h_to, ↓reduceIte]
+    split
+    · exact parseNameAddrPVal_ne_lbug HdrTo b o _
+    · afa_ne
+  simp only [h_to, Bool.false_eq_true, ↓reduceIte]
+  by_cases h_callid : (h.type == HdrCallID) = true
+  · simp only [h_callid, ↓reduceIte]
+    split
+    · exact parseCallIDVal_ne_lbug b o _
+    · afa_ne
+  simp only [h_callid, Bool.false_eq_true, ↓reduceIte]
+  by_cases h_cseq : (h.type == HdrCSeq) = true
+  · simp only [h_cseq, ↓reduceIte]
+    split
+    · exact parseCSeqVal_ne_lbug b o _
+    · afa_ne
+  simp only [h_cseq, Bool.false_eq_true, ↓reduceIte]
+  by_cases h_clen : (h.type == HdrCLen) = true
+  · simp only [h_clen, ↓reduceIte]
+    split
+    · exact parseCLenVal_ne_lbug b o _
+    · afa_ne
+  simp only [h_clen, Bool.false_eq_true, ↓reduceIte]
+  by_cases h_contacts : (h.type == HdrContact) = true
+  · simp only [h_contacts, ↓reduceIte]
+    exact parseAllContactValues_ne_lbug b o _
+  simp only [h_contacts, Bool.false_eq_true, ↓reduceIte]
+  by_cases h_expires : (h.type == HdrExpires) = true
+  · simp only [h_expires, ↓reduceIte]
+    split
+    · exact parseUIntVal_ne_lbug b o _
+    · afa_ne
+  simp only [h_expires, Bool.false_eq_true, ↓reduceIte]
+  by_cases h_pais : (h.type == HdrPAI) = true
+  · simp only [h_pais, ↓reduceIte]
+    exact parseAllPAIValues_ne_lbug b o _
+  simp only [h_pais, Bool.false_eq_true, ↓reduceIte]
+  afa_ne
+
+theorem afa_hlAfterColon_nl (b : Buf) (i : Nat) (h : Hdr) (hb : Option PHdrVals) : afaNL (hlAfterColon b i h hb) := by
+  unfold hlAfterColon
+  split
+  · afa_ne
+  · rename_i nm _
+    simp only
+    have := parseBody_ne_lbug b i { h with type := getHdrType nm } hb
+    rcases hp : parseBody b i { h with type := getHdrType nm } hb with ⟨n1, e1, h2, hb2⟩
+    rw [hp] at this
+    simp only
+    split
+    · exact this
+    · exact True.intro
+
+theorem afa_hlName_nl (b : Buf) (i : Nat) (h : Hdr) (hb : Option PHdrVals) : afaNL (hlName b i h hb) := by
+  unfold hlName
+  simp only
+  repeat' split
+  all_goals first
+    | exact True.intro
+    | exact afa_hlAfterColon_nl b _ _ hb
+    | afa_ne
+
+theorem afa_hlValEnd_nl (b : Buf) (i : Nat) (h : Hdr) (hb : Option PHdrVals) : afaNL (hlValEnd b i h hb) := by
+  unfold hlValEnd
+  rcases hsk : skipLWS b i 0 with ⟨n1, crl, e⟩
+  have hne := afa_skipLWS_nl b i 0 hsk
+  cases e
+  all_goals first
+    | exact hne
+    | exact True.intro
+    | afa_ne
+
+theorem afa_hlCont_nl (b : Buf) (i : Nat) (h : Hdr) (hb : Option PHdrVals) : afaNL (hlCont b i h hb) := by
+  unfold hlCont
+  cases hb with
+  | none => afa_ne
+  | some hv =>
+    simp only
+    cases h.state <;> simp only
+    all_goals first
+      | exact parseNameAddrPVal_ne_lbug _ b i _
+      | exact parseCallIDVal_ne_lbug b i _
+      | exact parseCSeqVal_ne_lbug b i _
+      | exact parseCLenVal_ne_lbug b i _
+      | exact parseUIntVal_ne_lbug b i _
+      | exact parseAllContactValues_ne_lbug b i _
+      | exact parseAllPAIValues_ne_lbug b i _
+      | afa_ne
+
+theorem afa_hlStep_nl (b : Buf) (i : Nat) (c : UInt8) (st : HLσ) : afaNL (hlStep b i c st) := by
+  obtain ⟨h, hb⟩ := st
+  unfold hlStep
+  simp only
+  cases hst : h.state <;> simp only
+  case bodyStart =>
+    rcases hsk : skipLWS b i 0 with ⟨n1, crl, e⟩
+    have hne := afa_skipLWS_nl b i 0 hsk
+    cases e
+    all_goals first
+      | exact hne
+      | exact True.intro
+      | afa_ne
+  all_goals
+    repeat' split
+    all_goals first
+      | exact True.intro
+      | exact afa_hlName_nl b _ _ hb
+      | exact afa_hlAfterColon_nl b _ _ hb
+      | exact afa_hlValEnd_nl b _ _ hb
+      | exact afa_hlCont_nl b i h hb
+      | (rw [← hst]; exact afa_hlCont_nl b i h hb)
+      | afa_ne
+
+/-- **ParseHdrLine never returns the model-only verdict** (every buffer, offset, header object, values object or nil) -/
+theorem parseHdrLine_ne_lbug (b : Buf) (o : Nat) (h : Hdr) (hb : Option PHdrVals) :
+    (parseHdrLine b o h hb).2.1 ≠ .lbug := by
+  unfold parseHdrLine
+  have := afa_runLoop_nl hlMachine hl_progress b (fun i c st _ => afa_hlStep_nl b i c st)
+    (by intro i st; simp [hlMachine]) o (h, hb)
+  rcases hrl : runLoop hlMachine b o (h, hb) with ⟨o1, e1, h1, hb1⟩
+  rw [hrl] at this
+  exact this
+
+/-- **ParseHeaders never takes the model-only exit**, from every legitimate list / values object — the hypotheses
+    of `headers_never_panics` minus the ones not needed (`HlsSafe`, the 65,535 limit): new, finished, or returned by an
+    earlier call on a prefix of the buffer with MoreBytes (`hlsOK`, `hbOK`), and no stale suspended header in the slots
+    still to be filled (`hlsPend`) -/
+theorem parseHeaders_ne_lbug (b : Buf) (offs : Nat) (hl : HdrLst) (hb : Option PHdrVals)
+    (hok1 : hlsOK b hl) (hok2 : hbOK b offs hb) (hpe : hlsPend hl hb) (ho : offs ≤ b.size) :
+    (parseHeaders b offs hl hb).2.1 ≠ .lbug := by
+  induction hk : b.size - offs using Nat.strongRecOn generalizing offs hl hb with
+  | _ k ih =>
+    rw [parseHeaders.eq_1 b offs hl hb]
+    by_cases hlt : offs < b.size
+    · rw [if_pos hlt]
+      have hI : hlOK b offs hl.cur hb := ⟨by omega, hlsOK_cur hok1, hok2⟩
+      have hne := parseHdrLine_ne_lbug b offs hl.cur hb
+      rcases hp1 : parseHdrLine b offs hl.cur hb with ⟨n1, e1, g1, v1⟩
+      rw [hp1] at hne
+      cases e1 <;> simp only <;> try (first | exact hne | afa_ne)
+      case ok =>
+        have hpost := parseHdrLine_post b offs hl.cur hb hI hp1 (Or.inl rfl)
+        have hg : offs < n1 := parseHdrLine_ok_gt b offs hl.cur hb hI hpe.1 hp1
+        rw [if_pos hg]
+        exact ih (b.size - n1) (by omega) n1 _ v1 (hlsOK_next g1 hok1) hpost.2 (hlsPend_next g1 v1 hpe) hpost.1 rfl
+      case empty => split <;> afa_ne
+    · rw [if_neg hlt]; afa_ne
+
+/-! ### ParseFLine (no hypothesis) and ParseSIPMsg -/
+
+theorem afa_flCRLF_nl (b : Buf) (i : Nat) (pl : PFLine) : (flCRLF b i pl).2.1 ≠ .lbug := by
+  unfold flCRLF
+  rcases hs : skipCRLF b i with ⟨n, crl, e⟩
+  have := afa_skipCRLF_nl hs
+  cases e <;> first | exact this | afa_ne
+
+theorem afa_flReqVer_nl (b : Buf) (i : Nat) (pl : PFLine) : (flReqVer b i pl).2.1 ≠ .lbug := by
+  unfold flReqVer
+  simp only
+  repeat' split
+  all_goals first | exact afa_flCRLF_nl b _ _ | afa_ne
+
+theorem afa_flReqURI_nl (b : Buf) (i : Nat) (pl : PFLine) : (flReqURI b i pl).2.1 ≠ .lbug := by
+  unfold flReqURI
+  simp only
+  repeat' split
+  all_goals first | exact afa_flReqVer_nl b _ _ | afa_ne
+
+theorem afa_flReqMethod_nl (b : Buf) (i : Nat) (pl : PFLine) : (flReqMethod b i pl).2.1 ≠ .lbug := by
+  unfold flReqMethod
+  simp only
+  repeat' split
+  all_goals first | exact afa_flReqURI_nl b _ _ | afa_ne
+
+theorem afa_flRplReason_nl (b : Buf) (i : Nat) (pl : PFLine) : (flRplReason b i pl).2.1 ≠ .lbug := by
+  unfold flRplReason skipLine
+  rcases hs : skipCRLF b (skipToEOL b i) with ⟨n, crl, e⟩
+  have := afa_skipCRLF_nl hs
+  cases e <;> first | exact this | afa_ne
+
+theorem afa_flReply_nl (b : Buf) (i0 l : Nat) (pl : PFLine) : (flReply b i0 l pl).2.1 ≠ .lbug := by
+  unfold flReply
+  simp only
+  repeat' split
+  all_goals first | exact afa_flRplReason_nl b _ _ | afa_ne
+
+/-- **ParseFLine never returns the model-only verdict** (it has no loop of the generic driver) -/
+theorem parseFLine_ne_lbug (b : Buf) (o : Nat) (pl : PFLine) : (parseFLine b o pl).2.1 ≠ .lbug := by
+  unfold parseFLine
+  cases pl.state <;> simp only
+  all_goals first
+    | exact afa_flReqMethod_nl b o pl
+    | exact afa_flReqURI_nl b o pl
+    | exact afa_flReqVer_nl b o pl
+    | exact afa_flCRLF_nl b o pl
+    | exact afa_flRplReason_nl b o pl
+    | afa_ne
+    | (repeat' split
+       all_goals first
+         | exact afa_flReply_nl b o _ pl
+         | exact afa_flReqMethod_nl b o _
+         | afa_ne)
+
+theorem afa_msgErr_nl (m : PSIPMsg) (o : Nat) (e : Err) (flags : Nat) (he : e ≠ .lbug) :
+    (msgErr m o e flags).2.1 ≠ .lbug := by
+  unfold msgErr
+  repeat' split
+  all_goals first | exact he | afa_ne
+
+theorem afa_msgBody_nl (b : Buf) (o : Nat) (m : PSIPMsg) (flags : Nat) : (msgBody b o m flags).2.1 ≠ .lbug := by
+  unfold msgBody msgEnd
+  simp only
+  repeat' split
+  all_goals afa_ne
+
+theorem afa_msgHeaders_nl (b : Buf) (o : Nat) (m : PSIPMsg) (flags : Nat) (ho : o ≤ b.size)
+    (hok1 : hlsOK b m.hl) (hok2 : hvOK b o m.pv) (hpe : hlsPend m.hl (some m.pv)) :
+    (msgHeaders b o m flags).2.1 ≠ .lbug := by
+  unfold msgHeaders
+  have hne := parseHeaders_ne_lbug b o m.hl (some m.pv) hok1 hok2 hpe ho
+  rcases hp : parseHeaders b o m.hl (some m.pv) with ⟨o1, e1, hl1, hb1⟩
+  rw [hp] at hne
+  cases e1 <;> simp only <;> first | exact afa_msgBody_nl b _ _ _ | exact afa_msgErr_nl _ _ _ _ hne
+
+theorem afa_msgFLine_nl (b : Buf) (o : Nat) (m : PSIPMsg) (flags : Nat) (ho : o ≤ b.size)
+    (hok1 : hlsOK b m.hl) (hok2 : hvOK b o m.pv) (hpe : hlsPend m.hl (some m.pv)) :
+    (msgFLine b o m flags).2.1 ≠ .lbug := by
+  unfold msgFLine
+  have hne := parseFLine_ne_lbug b o m.fl
+  rcases hp : parseFLine b o m.fl with ⟨o1, e1, fl1⟩
+  rw [hp] at hne
+  cases e1 <;> simp only <;> try (exact afa_msgErr_nl _ _ _ _ hne)
+  have hrg := parseFLine_range b o m.fl ho
+  rw [hp] at hrg
+  have hrg' := hrg rfl
+  exact afa_msgHeaders_nl b o1 _ flags hrg'.2 hok1 (hvOK_mono hok2 hrg'.1 hrg'.2) hpe
+
+/-- **ParseSIPMsg never takes a model-only exit — one call, any legitimate object** (`msgOK2`, the legitimacy
+    hypothesis of `msg_never_panics`; `MsgSafe` and the 65,535 limit are not needed here) -/
+theorem parseSIPMsg_ne_lbug (b : Buf) (o : Nat) (m : PSIPMsg) (flags : Nat) (hok : msgOK2 b o m) :
+    (parseSIPMsg b o m flags).2.1 ≠ .lbug := by
+  obtain ⟨ho, _, h3⟩ := hok
+  unfold parseSIPMsg
+  cases hst : m.state <;> simp only
+  case init =>
+    obtain ⟨a1, a2, a3⟩ := h3 (by rw [hst]; decide)
+    exact afa_msgFLine_nl b o _ flags ho a1 a2 a3
+  case fline =>
+    obtain ⟨a1, a2, a3⟩ := h3 (by rw [hst]; decide)
+    exact afa_msgFLine_nl b o m flags ho a1 a2 a3
+  case headers =>
+    obtain ⟨a1, a2, a3⟩ := h3 (by rw [hst]; decide)
+    exact afa_msgHeaders_nl b o m flags ho a1 a2 a3
+  case body => exact afa_msgBody_nl b o m flags
+  all_goals exact afa_msgErr_nl _ _ _ _ (by afa_ne)
+
+/-- … from any object produced by Init: any previous contents, caller arrays of any capacity (or none), any start
+    offset inside the buffer, any flags -/
+theorem parseSIPMsg_ne_lbug_init (b : Buf) (o : Nat) (ho : o ≤ b.size) (m0 : PSIPMsg) (len kh kc : Nat)
+    (hdrs cts : Option Unit) (flags : Nat) :
+    (parseSIPMsg b o (m0.init len (hdrs.map fun _ => Array.replicate kh {}) (cts.map fun _ => Array.replicate kc {}))
+      flags).2.1 ≠ .lbug :=
+  parseSIPMsg_ne_lbug b o _ flags (msgOK2_init b o ho m0 len kh kc hdrs cts)
+
+/-- **every chunk schedule**: the chain of resumed ParseSIPMsg calls never ends with the model-only verdict (the
+    hypotheses are those of `msg_schedule_never_panics`) -/
+theorem parseSIPMsg_schedule_ne_lbug (flags : Nat) (o : Nat) (m : PSIPMsg) (l : List Buf) (hg : Growing l)
+    (hfit : ∀ x ∈ l, x.size ≤ 65535) (hne : l ≠ []) (h0 : ∀ b ∈ l.head?, msgOK2 b o m ∧ MsgSafe b o m) :
+    (resumeRun (fun b o m => parseSIPMsg b o m flags) o m l).2.1 ≠ .lbug := by
+  have := resumeRun_post (fun b o m => parseSIPMsg b o m flags) (fun b o m => msgOK2 b o m ∧ MsgSafe b o m)
+    (fun _ _ r => r.2.1 ≠ .lbug) (fun b => b.size ≤ 65535) ?_ (fun b o o' r _ q => q) o m l hg hfit hne h0
+  · obtain ⟨_, _, hq⟩ := this; exact hq
+  · intro b o m hfit hI
+    have hT := parseSIPMsg_safe b o m flags hfit hI.1 hI.2
+    refine ⟨parseSIPMsg_ne_lbug b o m flags hI.1, fun hmb => ⟨hT.ge (Or.inr hmb), fun s => ?_⟩⟩
+    rcases hp : parseSIPMsg b o m flags with ⟨o1, e1, m1⟩
+    rw [hp] at hmb hT
+    simp only at hmb
+    subst hmb
+    have hr := parseSIPMsg_resume b s o m flags flags hI.1 hfit hp
+    exact ⟨hr.2.1, (hT.more rfl).grow (by rw [Array.size_append]; omega)⟩
+
+/-- **every chunk schedule, from Init** -/
+theorem parseSIPMsg_schedule_ne_lbug_init (flags : Nat) (o : Nat) (m0 : PSIPMsg) (len kh kc : Nat)
+    (hdrs cts : Option Unit) (l : List Buf) (hg : Growing l) (hfit : ∀ x ∈ l, x.size ≤ 65535) (hne : l ≠ [])
+    (ho : ∀ b ∈ l.head?, o ≤ b.size) :
+    (resumeRun (fun b o m => parseSIPMsg b o m flags) o
+      (m0.init len (hdrs.map fun _ => Array.replicate kh {}) (cts.map fun _ => Array.replicate kc {})) l).2.1 ≠ .lbug :=
+  parseSIPMsg_schedule_ne_lbug flags o _ l hg hfit hne
+    (fun b hb => ⟨msgOK2_init b o (ho b hb) m0 len kh kc hdrs cts, MsgSafe_init b o (ho b hb) m0 len kh kc hdrs cts⟩)
+
+/-! ### new / Init / Reset objects qualify -/
+
+/-- ParseHeaders on the list and values object of any Init message object (caller arrays of any capacity, or none),
+    with or without a values object -/
+theorem parseHeaders_ne_lbug_init (b : Buf) (o : Nat) (ho : o ≤ b.size) (m0 : PSIPMsg) (len kh kc : Nat)
+    (hdrs cts : Option Unit) (useVals : Bool) :
+    (parseHeaders b o (m0.init len (hdrs.map fun _ => Array.replicate kh {}) (cts.map fun _ => Array.replicate kc {})).hl
+      (if useVals then some (m0.init len (hdrs.map fun _ => Array.replicate kh {})
+        (cts.map fun _ => Array.replicate kc {})).pv else none)).2.1 ≠ .lbug := by
+  have hm := msgOK2_init b o ho m0 len kh kc hdrs cts
+  obtain ⟨a1, a2, a3⟩ := hm.2.2 (by intro hh; cases hh)
+  cases useVals
+  · refine parseHeaders_ne_lbug b o _ none a1 trivial ⟨?_, a3.2.1, a3.2.2⟩ ho
+    show hlPending (_, none)
+    unfold hlPending; trivial
+  · exact parseHeaders_ne_lbug b o _ (some _) a1 a2 a3 ho
+
+/-- **after ANY history of Init / parse calls (complete, suspended, failed) / Reset, then Reset**: the next
+    ParseSIPMsg call, at any offset inside any buffer, never takes a model-only exit (`ScReach`: the reachability
+    predicate of `sig_never_panics_history`; Reset after any history is an Init object) -/
+theorem parseSIPMsg_ne_lbug_reset {m : PSIPMsg} (hR : ScReach m) (b : Buf) (o : Nat) (ho : o ≤ b.size) (flags : Nat) :
+    (parseSIPMsg b o m.reset flags).2.1 ≠ .lbug :=
+  parseSIPMsg_ne_lbug b o m.reset flags (sc_reset_legit hR b o ho).1
+
+/-- … and every chunk schedule after that Reset -/
+theorem parseSIPMsg_schedule_ne_lbug_reset {m : PSIPMsg} (hR : ScReach m) (flags : Nat) (o : Nat) (l : List Buf)
+    (hg : Growing l) (hfit : ∀ x ∈ l, x.size ≤ 65535) (hne : l ≠ []) (ho : ∀ b ∈ l.head?, o ≤ b.size) :
+    (resumeRun (fun b o m => parseSIPMsg b o m flags) o m.reset l).2.1 ≠ .lbug :=
+  parseSIPMsg_schedule_ne_lbug flags o _ l hg hfit hne (fun b hb => sc_reset_legit hR b o (ho b hb))
+
+/-! ## non-vacuity / tests (closed computations by `decide +kernel`) -/
+
+/-- "ABC\rxxxxxxxxxxxx": a first line that is rejected with BadChar at offset 3 -/
+def afaBadFL : Buf := #[65, 66, 67, 13, 120, 120, 120, 120, 120, 120, 120, 120, 120, 120, 120, 120]
+
+/-- test: the verdict, and the reason why the old form of the theorem could not be applied to it: with flags 0 and no
+    Content-Length parsed, `bodyToEnd` HOLDS of the returned object -/
+example : (parseSIPMsg afaBadFL 0 (({} : PSIPMsg).init 0 none none) 0).1 = 3 ∧
+    (parseSIPMsg afaBadFL 0 (({} : PSIPMsg).init 0 none none) 0).2.1 = .badChar ∧
+    bodyToEnd 0 (parseSIPMsg afaBadFL 0 (({} : PSIPMsg).init 0 none none) 0).2.2 := by
+  refine ⟨by decide +kernel, by decide +kernel, by decide, by decide +kernel, by decide⟩
+
+/-- **(A) instance: a BadChar first line stays BadChar at the same offset whatever bytes arrive later** — by
+    `parseSIPMsg_stable_all_init`, whose side condition is void for a non-OK verdict -/
+example (s : Buf) : (parseSIPMsg (afaBadFL ++ s) 0 (({} : PSIPMsg).init 0 none none) 0).1 = 3 ∧
+    (parseSIPMsg (afaBadFL ++ s) 0 (({} : PSIPMsg).init 0 none none) 0).2.1 = .badChar := by
+  rcases hp : parseSIPMsg afaBadFL 0 (({} : PSIPMsg).init 0 none none) 0 with ⟨o', e, m'⟩
+  have h1 : (parseSIPMsg afaBadFL 0 (({} : PSIPMsg).init 0 none none) 0).1 = 3 := by decide +kernel
+  have h2 : (parseSIPMsg afaBadFL 0 (({} : PSIPMsg).init 0 none none) 0).2.1 = .badChar := by decide +kernel
+  rw [hp] at h1 h2
+  simp only at h1 h2
+  subst h1 h2
+  have := parseSIPMsg_stable_all_init afaBadFL s 0 (Nat.zero_le _) {} 0 0 0 none none 0 (by decide) (by decide) hp
+    (by afa_ne) (fun hh => by cases hh)
+  exact ⟨by rw [show parseSIPMsg (afaBadFL ++ s) 0 (({} : PSIPMsg).init 0 none none) 0 = _ from this],
+    by rw [show parseSIPMsg (afaBadFL ++ s) 0 (({} : PSIPMsg).init 0 none none) 0 = _ from this]⟩
+
+/-- "SIP/2.0/UDP h;a=b;branch=z9hG4bKabc": the loop of GetViaBrSig goes round twice (MoreValues after `a=b`) -/
+def afaVia : Buf := #[83, 73, 80, 47, 50, 46, 48, 47, 85, 68, 80, 32, 104, 59, 97, 61, 98, 59, 98, 114, 97, 110, 99,
+  104, 61, 122, 57, 104, 71, 52, 98, 75, 97, 98, 99]
+
+/-- test of (B), GetViaBrSig: signature of the 3 characters after the magic cookie; an absurd value at the dead exit
+    changes nothing -/
+example : getViaBrSig afaVia = (0, 3, false) ∧ afaGetViaBrSigX (7, 7, true) afaVia = (0, 3, false) := by
+  refine ⟨by decide +kernel, by decide +kernel⟩
+
+/-- test of (B), URI parameters: "a=b;c=d;;e" with the end-of-input option, capacity 2 (overflowing) -/
+example : (parseAllURIParams #[97, 61, 98, 59, 99, 61, 100, 59, 59, 101] 0 { params := Array.replicate 2 {} } 8).2.2.1
+    = .eoh := by decide +kernel
+
+/-- (B): the hypotheses of `parseSIPMsg_ne_lbug` / `parseSIPMsg_schedule_ne_lbug` are satisfiable: every object
+    produced by Init meets them, for every buffer -/
+example (b : Buf) : msgOK2 b 0 (({} : PSIPMsg).init 0 none none) ∧ MsgSafe b 0 (({} : PSIPMsg).init 0 none none) :=
+  ⟨msgOK2_init b 0 (Nat.zero_le _) {} 0 0 0 none none, MsgSafe_init b 0 (Nat.zero_le _) {} 0 0 0 none none⟩
+
+/-- "A B C\r\nl:2\r\n\r\nxyz": a message with Content-Length 2 followed by 3 bytes -/
+def afaMsg : Buf := #[65, 32, 66, 32, 67, 13, 10, 108, 58, 50, 13, 10, 13, 10, 120, 121, 122]
+
+/-- test of (C): the hypotheses of `parseSIPMsg_ok_clen` hold of a concrete call, and what it concludes:
+    ParseHeaders stops at 14, the body is [14, 16), the returned offset is 16 -/
+example : (parseSIPMsg afaMsg 0 (({} : PSIPMsg).init 0 none none) 0).1 = 16 ∧
+    (parseSIPMsg afaMsg 0 (({} : PSIPMsg).init 0 none none) 0).2.1 = .ok ∧
+    (parseSIPMsg afaMsg 0 (({} : PSIPMsg).init 0 none none) 0).2.2.pv.clen.parsed = true ∧
+    (parseSIPMsg afaMsg 0 (({} : PSIPMsg).init 0 none none) 0).2.2.pv.clen.uiVal = 2 ∧
+    (parseSIPMsg afaMsg 0 (({} : PSIPMsg).init 0 none none) 0).2.2.body = ⟨14, 2⟩ ∧
+    (({} : PSIPMsg).init 0 none none).state = .init := by
+  refine ⟨by decide +kernel, by decide +kernel, by decide +kernel, by decide +kernel, by decide +kernel, rfl⟩
+
+/-- tests: the hypotheses of (B) are NOT redundant. Outside the domain — a list whose UNUSED slot holds a parameter
+    suspended after a separator (no API call produces that), a header list whose unused slot is a header suspended in
+    its From value while the values object says From is finished — the model-only exit is taken (the Go loop would go
+    on with the stale element). `plClean` / `hlClean` / `hlsPend` exclude exactly this. -/
+example : (parseAllURIParams #[97] 0 { params := #[{param := {state := .fNxt}}, {param := {state := .fNxt}}] } 0).2.2.1
+    = .lbug := by decide +kernel
+example : (parseAllURIHdrs #[97] 0 { hdrs := #[{state := .fNxt}, {state := .fNxt}] } 0).2.2.1 = .lbug := by
+  decide +kernel
+example : (parseHeaders #[97, 58, 98, 13, 10, 13, 10] 0 { hdrs := #[{ state := .hFrom }] }
+    (some { from_ := { state := .fin } })).2.1 = .lbug := by decide +kernel
 
 end Sipsp
